@@ -36,6 +36,9 @@ def run(ctx):
                     continue
                 ctx.missing('C16.R3', fn)
             sc = Scan(ctx, F, fn, tag, 'C16.R3')
+            if sc.state_machine:
+                ctx.undecided('C16.R3', '%s: the scan loop dispatches on a state variable %s assigned inside the loop: the per-iteration path rules do not apply' % (tag, sc.state_machine))
+                continue
             r3(ctx, F, sc)
             r4(ctx, F, sc, conf)
             from rules import C01
